@@ -186,7 +186,7 @@ var properties = map[string]*Property{
 		Assumptions: []string{
 			"key ids are observed, never predicted; a key-store version is identified by the RFC 7638 thumbprints of its key blocks parsed with the standard library",
 			"the published state is observed by the scheduler between steps (no task running); a token / JWKS read must be explained by a state visible during its invoke..return interval",
-			"a key id is never reused for different key material by the generator",
+			"in a third of the runs key ids are positional, i.e. they stay while the key material rotates",
 			"iat is compared with the wall clock around the call (+-2 s); it never enters the trace",
 		},
 		MustBePositive: []string{"signer-sched/probe:sign-overlapped-reload"},
